@@ -34,6 +34,18 @@ theorem pfxL_lhs (p : String) (wd : Nat → Nat) (nm : Nat → String) (k : Kind
   case const v r => simp only [Kind.lhs]; split <;> rfl
   all_goals rfl
 
+theorem pfxE_binChain (p : String) (op : String) (l : List String) : pfxE p (binChain op l) = binChain op (l.map (p ++ ·)) := by
+  cases l with
+  | nil => rfl
+  | cons x xs =>
+    simp only [binChain, List.map_cons]
+    have : ∀ (e : Expr), pfxE p (xs.foldl (fun e y => Expr.bin op e (.id y)) e) =
+        (xs.map (p ++ ·)).foldl (fun e y => Expr.bin op e (.id y)) (pfxE p e) := by
+      induction xs with
+      | nil => intro e; rfl
+      | cons y ys ih => intro e; simp only [List.foldl_cons, List.map_cons]; rw [ih]; rfl
+    rw [this]; rfl
+
 def pfxA (p : String) (a : LHS × Expr) : LHS × Expr := (pfxL p a.1, pfxE p a.2)
 
 theorem pfxA_bits (p : String) (nm : Nat → String) (a : Nat) (bits : List Nat) :
@@ -51,6 +63,9 @@ theorem pfxA_assigns (p : String) (wd : Nat → Nat) (nm : Nat → String) (k : 
     (k.assigns wd nm).map (pfxA p) = k.assigns wd (fun x => p ++ nm x) := by
   cases k with
   | prim q => simp [GKind.assigns, pfxA, Kind.assign, pfxE_rhs, pfxL_lhs]
+  | nary op ins r ts mid =>
+    cases op <;> simp [GKind.assigns, pfxA, pfxL, pfxE, pfxE_binChain, List.map_map, Function.comp_def]
+  | dm isMod a b r => simp [GKind.assigns, pfxA, pfxL, pfxE]
   | bitsL a bits => exact pfxA_bits p nm a bits
   | bitsM a bits => exact pfxA_bits p nm a bits
   | nand2 a b r t => simp [GKind.assigns, pfxA, pfxL, pfxE]
@@ -195,20 +210,6 @@ theorem modDecl_contrib {χ : Type} (wd : Nat → Nat) (M : Mod χ) (p : String)
     simp [modDeclPiece, Piece.toContrib, Contrib.app, Contrib.join, modPorts, portSig, mkPort, List.map_map, Function.comp_def,
       List.flatMap_map, flatMap_single_eq_map]
 
-/-- **a structural module whose children are inlinable children and registers, flattened under ANY instance prefix** -/
-theorem flatten_scope (wd : Nat → Nat) (clk : String) (d : Design) (fuel : Nat) (sc : Scope) (p : String) (nu : List (Nat × String))
-    (i0 : Nat) (f : V.Flat) (hfind : ∀ r, GChild.reg r ∈ sc.children → findModule d r.mname = some (regModuleH wd r)) :
-    flattenM d (fuel + 2) (scopeModule wd clk sc) p f =
-      addC f ((modDeclPiece wd sc p sc.hasReg clk).app
-        (Piece.join (gchildPieces wd (fun x => p ++ sc.nm x) nu p (p ++ clk) i0 sc.children))).toContrib := by
-  rw [flattenM_eq]
-  simp only [scopeModule, List.foldl_nil, ports_fold, List.foldl_append, List.foldl_map]
-  rw [fold_addC _ sc.locals (fun k => ({ sigs := [(p ++ sc.nm k, { width := wd k })] } : Contrib))
-    (by intro f k _; simp [stepF, addC])]
-  rw [fold_gchildren wd d fuel p sc.nm clk nu sc.children i0 _ hfind]
-  rw [addC_addC, addC_addC, toContrib_app, modDecl_contrib, Contrib.app]
-  simp [Contrib.app, List.append_assoc]
-
 /-! ### an instance of a structural sub-module -/
 
 theorem find_port (ports : List Port) (hn : (ports.map (·.name)).Nodup) (pt : Port) (hpt : pt ∈ ports) :
@@ -229,9 +230,6 @@ theorem find_port (ports : List Port) (hn : (ports.map (·.name)).Nodup) (pt : P
       exact ih hn.2 hpt
 
 /-- the port names of a sub-module (clock first when it has a register) are pairwise different -/
-def PortsOK (clk : String) (sc : Scope) : Prop :=
-  ((if sc.hasReg then [clk] else []) ++ (sc.inputs.map (·.1) ++ sc.outputs.map (·.1))).Nodup
-
 theorem fold_in_conns (cm : Module) (cp p iname mn : String) (hn : (cm.ports.map (·.name)).Nodup)
     (l : List (String × Expr)) (hl : ∀ c, c ∈ l → ∃ w, mkPort .inp w c.1 ∈ cm.ports) (f : V.Flat) :
     l.foldl (connStep cm cp p iname mn) f = addC f { assigns := l.map fun c => (.lid (cp ++ c.1), pfxE p c.2) } := by
@@ -261,63 +259,202 @@ theorem fold_out_conns (cm : Module) (cp p iname mn : String) (hn : (cm.ports.ma
     rw [ih (fun c' hc' => hl c' (by simp [hc']))]
     simp [addC, List.append_assoc]
 
-theorem ports_names (wd : Nat → Nat) (clk : String) (sc : Scope) :
-    (modPorts wd sc sc.hasReg clk).map (·.name) = (if sc.hasReg then [clk] else []) ++ (sc.inputs.map (·.1) ++ sc.outputs.map (·.1)) := by
-  cases sc.hasReg <;> simp [modPorts, mkPort, List.map_map, Function.comp_def]
+theorem ports_names {χ : Type} (wd : Nat → Nat) (clk : String) (hr : Bool) (sc : Mod χ) :
+    (modPorts wd sc hr clk).map (·.name) = (if hr then [clk] else []) ++ (sc.inputs.map (·.1) ++ sc.outputs.map (·.1)) := by
+  cases hr <;> simp [modPorts, mkPort, List.map_map, Function.comp_def]
 
-theorem step_sub (S : HierSrc) (d : Design) (fuel : Nat) (i : Nat) (iname : String) (body : Scope)
-    (hfind : findModule d body.mname = some (scopeModule S.wd S.clk body))
-    (hregs : ∀ r, GChild.reg r ∈ body.children → findModule d r.mname = some (regModuleH S.wd r))
-    (hports : PortsOK S.clk body) (f : V.Flat) :
-    stepF d (fuel + 2) "" f (.inst body.mname iname [] (subConns S.top.nm S.clk body)) =
-      addC f (S.subPiece i iname body).toContrib := by
-  have hn : ((scopeModule S.wd S.clk body).ports.map (·.name)).Nodup := by
-    show ((modPorts S.wd body body.hasReg S.clk).map (·.name)).Nodup
+/-! ### a level is correct when the items of its children flatten to their pieces -/
+
+variable {χ : Type}
+
+/-- correctness of a level whose children nest at most `k` deep: under ANY instance prefix `p`, with enough fuel, every
+    module found in the list -/
+def LowOK (wd : Nat → Nat) (clk : String) (L : Low χ) (k : Nat) : Prop :=
+  ∀ (d : Design) (fuel : Nat) (p : String) (nm : Nat → String) (nu : List (Nat × String)) (cs : List χ) (i0 : Nat) (f : V.Flat),
+    (∀ m, m ∈ cs.flatMap L.mods → findModule d m.name = some m) → L.portsOK cs = true →
+    (cs.flatMap (L.items nm)).foldl (stepF d (fuel + k + 1) p) f =
+      addC f (Piece.join (L.pieces (fun x => p ++ nm x) nu p (p ++ clk) i0 cs)).toContrib
+
+theorem low0_ok (wd : Nat → Nat) (clk : String) : LowOK wd clk (low0 wd clk) 0 := by
+  intro d fuel p nm nu cs i0 f hfind _
+  exact fold_gchildren wd d fuel p nm clk nu cs i0 f
+    (fun r hr => hfind (regModuleH wd r) (List.mem_flatMap.mpr ⟨_, hr, by simp [low0, gchildMods]⟩))
+
+/-- **a structural module, flattened under ANY instance prefix** -/
+theorem flatten_mod (wd : Nat → Nat) (clk : String) (L : Low χ) (k : Nat) (hL : LowOK wd clk L k) (d : Design) (fuel : Nat)
+    (b : Mod χ) (p : String) (i0 : Nat) (f : V.Flat)
+    (hfind : ∀ m, m ∈ b.children.flatMap L.mods → findModule d m.name = some m) (hp : L.portsOK b.children = true) :
+    flattenM d (fuel + k + 2) (L.modOf wd clk b) p f = addC f (L.modPiece wd clk b p i0).toContrib := by
+  show flattenM d ((fuel + k + 1) + 1) (L.modOf wd clk b) p f = _
+  rw [flattenM_eq]
+  simp only [Low.modOf, List.foldl_nil, ports_fold, List.foldl_append, List.foldl_map]
+  rw [fold_addC _ b.locals (fun k => ({ sigs := [(p ++ b.nm k, { width := wd k })] } : Contrib))
+    (by intro f k _; simp [stepF, addC])]
+  rw [hL d fuel p b.nm (nuOf b p) b.children i0 _ hfind hp]
+  rw [addC_addC, addC_addC, Low.modPiece, toContrib_app, modDecl_contrib, Contrib.app]
+  simp [Contrib.app, List.append_assoc]
+
+/-- **an instance of a structural sub-module**: the body under the instance prefix, then the port connections -/
+theorem step_sub (wd : Nat → Nat) (clk : String) (L : Low χ) (k : Nat) (hL : LowOK wd clk L k) (d : Design) (fuel : Nat)
+    (p : String) (nm : Nat → String) (i : Nat) (iname : String) (body : Mod χ)
+    (hmod : findModule d body.mname = some (L.modOf wd clk body))
+    (hfind : ∀ m, m ∈ body.children.flatMap L.mods → findModule d m.name = some m) (hp : L.portsOK body.children = true)
+    (hports : PortsOK clk (L.modHasReg body) body) (f : V.Flat) :
+    stepF d (fuel + k + 2) p f (.inst body.mname iname [] (subConns nm clk (L.modHasReg body) body)) =
+      addC f (L.subPiece wd clk (fun x => p ++ nm x) p (p ++ clk) i iname body).toContrib := by
+  have hn : ((L.modOf wd clk body).ports.map (·.name)).Nodup := by
+    show ((modPorts wd body (L.modHasReg body) clk).map (·.name)).Nodup
     rw [ports_names]; exact hports
-  have hpin : ∀ pk, pk ∈ body.inputs → mkPort .inp (S.wd pk.2) pk.1 ∈ (scopeModule S.wd S.clk body).ports := by
+  have hpin : ∀ pk, pk ∈ body.inputs → mkPort .inp (wd pk.2) pk.1 ∈ (L.modOf wd clk body).ports := by
     intro pk hpk
-    show _ ∈ modPorts S.wd body body.hasReg S.clk
+    show _ ∈ modPorts wd body (L.modHasReg body) clk
     simp only [modPorts, List.mem_append, List.mem_map]
     left; right; exact ⟨pk, hpk, rfl⟩
-  have hpout : ∀ pk, pk ∈ body.outputs → mkPort .out (S.wd pk.2) pk.1 ∈ (scopeModule S.wd S.clk body).ports := by
+  have hpout : ∀ pk, pk ∈ body.outputs → mkPort .out (wd pk.2) pk.1 ∈ (L.modOf wd clk body).ports := by
     intro pk hpk
-    show _ ∈ modPorts S.wd body body.hasReg S.clk
+    show _ ∈ modPorts wd body (L.modHasReg body) clk
     simp only [modPorts, List.mem_append, List.mem_map]
     right; exact ⟨pk, hpk, rfl⟩
-  simp only [stepF, hfind, List.foldl_nil, subConns, List.foldl_append]
-  rw [flatten_scope S.wd S.clk d fuel body _ (nuOf body ("" ++ iname ++ ".")) i f hregs]
-  have hclk : (if body.hasReg = true then [(S.clk, Expr.id S.clk)] else []).foldl
-      (connStep (scopeModule S.wd S.clk body) ("" ++ iname ++ ".") "" iname body.mname) =
-      fun f => addC f { assigns := if body.hasReg then [(.lid ("" ++ iname ++ "." ++ S.clk), .id ("" ++ S.clk))] else [] } := by
-    funext f
-    cases hr : body.hasReg
+  simp only [stepF, hmod, List.foldl_nil, subConns, List.foldl_append]
+  rw [flatten_mod wd clk L k hL d fuel body _ i f hfind hp]
+  have hclk : ∀ f, (if L.modHasReg body = true then [(clk, Expr.id clk)] else []).foldl
+      (connStep (L.modOf wd clk body) (p ++ iname ++ ".") p iname body.mname) f =
+      addC f { assigns := if L.modHasReg body then [(.lid (p ++ iname ++ "." ++ clk), .id (p ++ clk))] else [] } := by
+    intro f
+    cases hr : L.modHasReg body
     · simp [addC]
     · rw [if_pos rfl, fold_in_conns _ _ _ _ _ hn _ (by
         intro c hc
         simp only [List.mem_singleton] at hc
         subst hc
         refine ⟨1, ?_⟩
-        show _ ∈ modPorts S.wd body body.hasReg S.clk
+        show _ ∈ modPorts wd body (L.modHasReg body) clk
         simp [modPorts, hr])]
       simp [pfxE]
   rw [hclk]
-  simp only []
-  rw [fold_in_conns _ _ _ _ _ hn (body.inputs.map fun pk => (pk.1, Expr.id (S.top.nm pk.2))) (by
+  rw [fold_in_conns _ _ _ _ _ hn (body.inputs.map fun pk => (pk.1, Expr.id (nm pk.2))) (by
     intro c hc
     rcases List.mem_map.mp hc with ⟨pk, hpk, e⟩
     subst e
     exact ⟨_, hpin pk hpk⟩)]
-  have hout : (body.outputs.map fun pk => (pk.1, Expr.id (S.top.nm pk.2))) =
-      (body.outputs.map fun pk => (pk.1, S.top.nm pk.2)).map fun c => (c.1, Expr.id c.2) := by
+  have hout : (body.outputs.map fun pk => (pk.1, Expr.id (nm pk.2))) =
+      (body.outputs.map fun pk => (pk.1, nm pk.2)).map fun c => (c.1, Expr.id c.2) := by
     rw [List.map_map]; rfl
   rw [hout, fold_out_conns _ _ _ _ _ hn _ (by
     intro c hc
     rcases List.mem_map.mp hc with ⟨pk, hpk, e⟩
     subst e
     exact ⟨_, hpout pk hpk⟩)]
-  simp only [addC_addC, subPiece, toContrib_app]
+  simp only [addC_addC, Low.subPiece, toContrib_app]
   congr 1
   simp [Piece.toContrib, Contrib.app, List.map_map, Function.comp_def, pfxE, List.append_assoc]
+
+/-! ### the next level -/
+
+theorem up_items_g (wd : Nat → Nat) (clk : String) (L : Low χ) (nm : Nat → String) (c : GChild) :
+    (L.up wd clk).items nm (.g c) = gchildItems wd nm clk c := rfl
+theorem up_items_sub (wd : Nat → Nat) (clk : String) (L : Low χ) (nm : Nat → String) (iname : String) (b : Mod χ) :
+    (L.up wd clk).items nm (.sub iname b) = [.inst b.mname iname [] (subConns nm clk (L.modHasReg b) b)] := rfl
+theorem up_mods_g (wd : Nat → Nat) (clk : String) (L : Low χ) (c : GChild) : (L.up wd clk).mods (.g c) = gchildMods wd c := rfl
+theorem up_mods_sub (wd : Nat → Nat) (clk : String) (L : Low χ) (iname : String) (b : Mod χ) :
+    (L.up wd clk).mods (.sub iname b) = L.modOf wd clk b :: b.children.flatMap L.mods := rfl
+theorem up_pieces (wd : Nat → Nat) (clk : String) (L : Low χ) : (L.up wd clk).pieces = L.childPieces wd clk := rfl
+theorem up_portsOK (wd : Nat → Nat) (clk : String) (L : Low χ) (cs : List (HChild χ)) :
+    (L.up wd clk).portsOK cs = cs.all fun c => match c with
+      | .g _ => true
+      | .sub _ b => decide (PortsOK clk (L.modHasReg b) b) && L.portsOK b.children := rfl
+
+theorem fold_children (wd : Nat → Nat) (clk : String) (L : Low χ) (k : Nat) (hL : LowOK wd clk L k) (d : Design) (fuel : Nat)
+    (p : String) (nm : Nat → String) (nu : List (Nat × String)) (cs : List (HChild χ)) (i0 : Nat) (f : V.Flat)
+    (hfind : ∀ m, m ∈ cs.flatMap (L.up wd clk).mods → findModule d m.name = some m) (hp : (L.up wd clk).portsOK cs = true) :
+    (cs.flatMap ((L.up wd clk).items nm)).foldl (stepF d (fuel + k + 2) p) f =
+      addC f (Piece.join (L.childPieces wd clk (fun x => p ++ nm x) nu p (p ++ clk) i0 cs)).toContrib := by
+  induction cs generalizing i0 f with
+  | nil => simp [Low.childPieces, Piece.join, Piece.toContrib, addC]
+  | cons c cs ih =>
+    have hj : ∀ (P : Piece) (ps : List Piece), (Piece.join (P :: ps)).toContrib = P.toContrib.app (Piece.join ps).toContrib := by
+      intro P ps
+      have : Piece.join (P :: ps) = P.app (Piece.join ps) := by simp [Piece.join, Piece.app]
+      rw [this, toContrib_app]
+    have hfind' : ∀ m, m ∈ cs.flatMap (L.up wd clk).mods → findModule d m.name = some m :=
+      fun m hm => hfind m (by simp only [List.flatMap_cons, List.mem_append]; exact Or.inr hm)
+    have hp' : (L.up wd clk).portsOK cs = true := by
+      rw [up_portsOK] at hp ⊢
+      simp only [List.all_cons, Bool.and_eq_true] at hp
+      exact hp.2
+    cases c with
+    | g c =>
+      cases c with
+      | kind kk =>
+        simp only [List.flatMap_cons, List.foldl_append, up_items_g, gchildItems, Low.childPieces]
+        rw [step_assigns, ih (i0 + 1) _ hfind' hp', addC_addC, hj]
+        congr 1
+        simp [kindPiece, Piece.toContrib, pfxA_assigns]
+      | reg r =>
+        simp only [List.flatMap_cons, List.foldl_append, up_items_g, gchildItems, Low.childPieces, List.foldl_cons, List.foldl_nil]
+        rw [step_reg wd d (fuel + k + 1) p nm clk r (hfind (regModuleH wd r) (by
+          simp only [List.flatMap_cons, List.mem_append, up_mods_g, gchildMods, List.mem_singleton]; exact Or.inl rfl)),
+          ih i0 _ hfind' hp', addC_addC, hj]
+    | sub iname body =>
+      have hsub : ∀ m, m ∈ L.modOf wd clk body :: body.children.flatMap L.mods → findModule d m.name = some m :=
+        fun m hm => hfind m (by simp only [List.flatMap_cons, List.mem_append, up_mods_sub]; exact Or.inl hm)
+      have hpb : PortsOK clk (L.modHasReg body) body ∧ L.portsOK body.children = true := by
+        rw [up_portsOK] at hp
+        simp only [List.all_cons, Bool.and_eq_true, decide_eq_true_eq] at hp
+        exact hp.1
+      simp only [List.flatMap_cons, List.foldl_append, up_items_sub, Low.childPieces, List.foldl_cons, List.foldl_nil]
+      rw [step_sub wd clk L k hL d fuel p nm i0 iname body (hsub _ (List.mem_cons_self ..))
+        (fun m hm => hsub m (List.mem_cons_of_mem _ hm)) hpb.2 hpb.1, ih _ _ hfind' hp', addC_addC, hj]
+
+theorem up_ok (wd : Nat → Nat) (clk : String) (L : Low χ) (k : Nat) (hL : LowOK wd clk L k) : LowOK wd clk (L.up wd clk) (k + 1) := by
+  intro d fuel p nm nu cs i0 f hfind hp
+  rw [up_pieces]
+  exact fold_children wd clk L k hL d fuel p nm nu cs i0 f hfind hp
+
+theorem lowN_ok (wd : Nat → Nat) (clk : String) : ∀ n, LowOK wd clk (lowN wd clk n) n
+  | 0 => low0_ok wd clk
+  | n + 1 => up_ok wd clk _ n (lowN_ok wd clk n)
+
+/-! ### module lookup in the emitted list -/
+
+theorem find_dedup (ms : List Module) (hc : ∀ m m', m ∈ ms → m' ∈ ms → m.name = m'.name → m = m') (m : Module) (hm : m ∈ ms) :
+    findModule (FlatSrc.dedupMods ms) m.name = some m := by
+  have ⟨h1, h2⟩ := FlatSrc.dedup_aux ms []
+  obtain ⟨m', hm', hname⟩ := h2 m (Or.inr hm)
+  unfold findModule
+  have hsome : ((FlatSrc.dedupMods ms).find? (·.name == m.name)).isSome = true := by
+    rw [List.find?_isSome]
+    exact ⟨m', hm', by simp [hname]⟩
+  cases hf : (FlatSrc.dedupMods ms).find? (·.name == m.name) with
+  | none => rw [hf] at hsome; cases hsome
+  | some x =>
+    have hx : x ∈ FlatSrc.dedupMods ms := List.mem_of_find?_eq_some hf
+    have hxn := List.find?_some hf
+    simp only [beq_iff_eq] at hxn
+    rcases h1 x hx with h0 | h0
+    · cases h0
+    · rw [hc x m h0 hm hxn]
+
+
+theorem emit_length (S : HierSrc) (h : S.depth ≤ S.emit.length) : ∃ n, S.emit.length = n + S.depth :=
+  ⟨S.emit.length - S.depth, by omega⟩
+
+theorem piece_flat (S : HierSrc) : addC {} S.piece.toContrib = S.cert.flat := by
+  simp [addC, Piece.toContrib, cert, CertSrc.flat, CertSrc.inits, CertSrc.procs]
+
+/-- **the emitted module list, flattened, is the flat text the certificate describes** (any nesting depth) -/
+theorem flatten_emitH (S : HierSrc) (h : S.modsOKb = true) : flatten S.emit S.top.mname = S.cert.flat := by
+  simp only [modsOKb, Bool.and_eq_true, List.all_eq_true, decide_eq_true_eq] at h
+  obtain ⟨⟨hc, hp⟩, hlen⟩ := h
+  have hfd := find_dedup S.mods (fun m m' hm hm' => hc m hm m' hm')
+  obtain ⟨n, hn⟩ := emit_length S hlen
+  unfold flatten
+  have htop : findModule S.emit S.top.mname = some S.topModule := hfd S.topModule (List.mem_cons_self ..)
+  rw [htop]
+  simp only
+  rw [hn, ← piece_flat]
+  exact flatten_mod S.wd S.clk S.low S.depth (lowN_ok S.wd S.clk S.depth) S.emit n S.top "" 0 {}
+    (fun m hm => hfd m (List.mem_cons_of_mem _ hm)) hp
 
 end HierSrc
 end FlatM
